@@ -26,3 +26,16 @@ def _run(prog: Program, rep: Report, tier: str) -> None:
     semiring_laws.run_laws(prog, rep, thorough=(tier == 'thorough'))
     wrappers.check_wrappers(prog, rep, 'C08-L9 representation-agreement', only_semiring_used=True)
     wrappers.check_binary(prog, rep, 'C08-L9 representation-agreement (pattern-aware binary ops)')
+    # the reductions take torch-style axis numbers (negative = from the end): shape arithmetic with `dim` must allow for that
+    from ..rules.negdim import check_dim_slices, positive_control
+    rep.rule('C08-L8b', 'axis arithmetic: a slice bound `dim + c` / `dim - c` in a semiring method that takes `dim` is reached only with `dim` made non-negative (for dim = -1, `shape[dim+1:]` is the whole shape); the rule has no instance on today\'s tree and is kept alive by a synthetic positive example')
+    if not positive_control():
+        rep.error('C08-L8b: the synthetic positive example is no longer matched by the rule')
+    base = prog.cls('fggs.semirings', 'Semiring')
+    n_dim = 0
+    for ci in [base] + prog.subclasses(base, strict=True):
+        for m in ci.methods.values():
+            if any(q in m.param_names() for q in ('dim', 'axis')):
+                n_dim += 1
+                check_dim_slices(rep, 'C08-L8b axis-arithmetic', m)
+    rep.floor('C08-L8b methods taking an axis', n_dim, 2)
